@@ -51,3 +51,28 @@ Proof.
   intros mass2 A1 A2 MP xs ys o hx hy Ax Ay. rewrite gen_compute_intensity_of_jumps_2d_eq_model.
   apply (sum_rates_is_intensity_2d amid amid_between (fun x _ => amid_refl x) amid_proper mass2) with (hx := hx) (hy := hy); assumption.
 Qed.
+
+(* wave 8 (audit5a X-d): the same for the 2-d intensity whose h_left / h_right are APPLICATIONS OF THE TRANSLATED CoordinateND variants of
+   left_point / right_point / middle (GenTieChain2d.compute_intensity_of_jumps_2d_nd: what the code executes on a two-axis CTMCGrid, clamp
+   len(axes[0]) on both axes), not the per-axis terms written in the spec; axes of equal lengths (what every constructor builds) make the
+   clamp the second axis' own (Tie_Chain2d.clamp_agrees_same_length) *)
+Theorem gen_compute_intensity_of_jumps_2d_nd_is_model (mass2 : Q * Q -> Q * Q -> Q) xs ys (o : nat) :
+  length ys = length xs ->
+  GenTieChain2d.compute_intensity_of_jumps_2d_nd mass2 xs ys (Z.of_nat o) == Chain.intensity2 Grid.amid mass2 xs ys o.
+Proof.
+  intros E. apply gen_compute_intensity_of_jumps_2d_nd_eq_model. apply clamp_agrees_same_length. symmetry; exact E.
+Qed.
+
+Theorem gen_sum_rates_is_intensity_2d_nd : forall (mass2 : Q * Q -> Q * Q -> Q),
+  (forall a1 b1 c1 y1 y2, a1 <= b1 -> b1 <= c1 -> avoids (a1, y1) (c1, y2) ->
+     mass2 (a1, y1) (c1, y2) == mass2 (a1, y1) (b1, y2) + mass2 (b1, y1) (c1, y2)) ->
+  (forall x1 x2 a2 b2 c2, a2 <= b2 -> b2 <= c2 -> avoids (x1, a2) (x2, c2) ->
+     mass2 (x1, a2) (x2, c2) == mass2 (x1, a2) (x2, b2) + mass2 (x1, b2) (x2, c2)) ->
+  (forall a1 a2 b1 b2 a1' a2' b1' b2', a1 == a1' -> a2 == a2' -> b1 == b1' -> b2 == b2' ->
+     mass2 (a1, a2) (b1, b2) == mass2 (a1', a2') (b1', b2')) ->
+  forall xs ys (o : nat) hx hy, admissible xs o hx -> admissible ys o hy -> length ys = length xs ->
+  qsum2 (q_matrix2 amid mass2 xs ys o) == GenTieChain2d.compute_intensity_of_jumps_2d_nd mass2 xs ys (Z.of_nat o).
+Proof.
+  intros mass2 A1 A2 MP xs ys o hx hy Ax Ay E. rewrite (gen_compute_intensity_of_jumps_2d_nd_is_model mass2 xs ys o E).
+  apply (sum_rates_is_intensity_2d amid amid_between (fun x _ => amid_refl x) amid_proper mass2) with (hx := hx) (hy := hy); assumption.
+Qed.
